@@ -150,4 +150,14 @@ theorem roundDiv_floor (n d k : Nat) :
     · omega
     · split <;> omega
 
+/-- an exact quotient is not changed by rounding -/
+theorem roundDiv_exact (n d k q : Nat) (hd : 0 < d) (h : n * 2 ^ k = q * d) : roundDiv n d k = q := by
+  unfold roundDiv
+  simp only []
+  rw [h]
+  have h1 : q * d / d = q := Nat.mul_div_cancel _ hd
+  have h2 : q * d % d = 0 := Nat.mul_mod_left _ _
+  rw [h1, h2]
+  simp [hd]
+
 end Gedcom.F64
